@@ -509,7 +509,9 @@ fn through_tree_(run: &mut Run, stream: &str, desc: &str, orig: &[u8], tree: &Cl
 	let n_insns: usize = tree.methods.iter().filter_map(|m| m.code.as_ref()).map(|c| c.instructions.len()).sum();
 	let mut plain_cache: Option<Result<Vec<Option<Vec<Vec<u8>>>>, String>> = None;
 	let class_stream = stream.split('+').next().unwrap_or(stream).to_string();
-	if run.class_left > 0 && n_insns <= 3000 && *run.class_per_stream.get(&class_stream).unwrap_or(&0) < run.class_cap {
+	// the assembled boundary constructions differ only in their code (covered method by method below): a few of each
+	let class_cap = match class_stream.as_str() { "generated" | "corpus" | "frames-mutated" | "frames-restart" => run.class_cap, "not-from-reading" | "shared-boundary" => run.class_cap / 8, _ => run.class_cap / 16 };
+	if run.class_left > 0 && n_insns <= 3000 && *run.class_per_stream.get(&class_stream).unwrap_or(&0) < class_cap {
 		let pl = if n_code == 0 { Ok(vec![None; tree.methods.len()]) } else { plain_bytes(tree) };
 		match &pl {
 			Ok(p) => match tree::class_term(tree, p) {
@@ -521,7 +523,7 @@ fn through_tree_(run: &mut Run, stream: &str, desc: &str, orig: &[u8], tree: &Cl
 						*run.class_per_stream.entry(class_stream.clone()).or_insert(0) += 1;
 						r.count("class_cases"); r.count(match &res { Ok(Ok(_)) => "class_answer_ok", Ok(Err(_)) => "class_answer_err", Err(_) => "class_answer_panic" });
 						r.count_n("class_case_bytes", match &res { Ok(Ok(out)) => out.len() as u64, _ => 0 });
-						r.case(&format!("class-{class_stream}"), format!("CClass [{}] {term} {ans}", strings.iter().map(|b| tree::pack(b)).collect::<Vec<_>>().join(";")));
+						r.case(&format!("class-{class_stream}"), format!("CClass [{}] {term} {ans} {from_reading}", strings.iter().map(|b| tree::pack(b)).collect::<Vec<_>>().join(";")));
 					} else { r.count("class_case_too_large"); }
 				}
 				Err(e) => { r.count("class_term_failed"); r.notes.push(format!("class term ({stream}): {e}")); r.notes.truncate(20); }
@@ -733,7 +735,7 @@ pub fn run(ctx: &Ctx) -> anyhow::Result<Report> {
 	r.shard_size = 24;
 	let mut rng = Rng::new(ctx.seed);
 	r.rule = "class files (assembled boundary constructions, random near-boundary methods, javac corpus) -> duke::read_class -> duke::write_class; oracle: the independent strict parser must accept the output and every branch/switch arm/exception range/table pc must designate the image of the same tree instruction; correspondence: every method body abstracted to the layout level (plain instruction bytes taken from a probe write in which label-carrying instructions are nops) and the Coq model of write_code compared byte for byte with the written code array and tables. Non-trivial = the class has at least one method with code; distinct by stream, description and class prefix.".into();
-	let mut run = Run { r: &mut r, cases_left: if ctx.thorough { 9000 } else { 1100 }, per_stream: HashMap::new(), cap: if ctx.thorough { 1500 } else { 230 }, pool_left: if ctx.thorough { 300 } else { 60 }, ldc_left: if ctx.thorough { 600 } else { 120 }, rename_left: if ctx.thorough { 4000 } else { 400 }, bsm_left: if ctx.thorough { 300 } else { 60 }, class_left: if ctx.thorough { 2500 } else { 420 }, class_per_stream: HashMap::new(), class_cap: if ctx.thorough { 900 } else { 150 }, pool_per_stream: HashMap::new(), ldc_per_stream: HashMap::new() };
+	let mut run = Run { r: &mut r, cases_left: if ctx.thorough { 9000 } else { 1100 }, per_stream: HashMap::new(), cap: if ctx.thorough { 1500 } else { 230 }, pool_left: if ctx.thorough { 300 } else { 60 }, ldc_left: if ctx.thorough { 600 } else { 120 }, rename_left: if ctx.thorough { 4000 } else { 400 }, bsm_left: if ctx.thorough { 300 } else { 60 }, class_left: if ctx.thorough { 3000 } else { 520 }, class_per_stream: HashMap::new(), class_cap: if ctx.thorough { 1300 } else { 200 }, pool_per_stream: HashMap::new(), ldc_per_stream: HashMap::new() };
 
 	let grow = 300usize; // fields: String constant lands beyond index 255 in the written pool
 	let one = |m: MiniMethod, nf: usize| MiniClass { n_fields: nf, methods: vec![m] };
